@@ -152,6 +152,115 @@ func pushReopen(ctx context.Context, tmp string, rounds, pushers int) string {
 	return "complete"
 }
 
+// junkPush: a Push that is refused (manifest media type, bytes that match digest and size but
+// are no JSON document) leaves index.json as it was, and the directory still opens.
+func junkPush(ctx context.Context, tmp string, n int) string {
+	for ri := 0; ri < n; ri++ {
+		dir := filepath.Join(tmp, fmt.Sprintf("jp%d", ri))
+		o, err := oci.New(dir)
+		if err != nil {
+			panic(err)
+		}
+		cfg := []byte("{}")
+		cd := descOf(ocispec.MediaTypeImageConfig, cfg)
+		m := ocispec.Manifest{Versioned: specs.Versioned{SchemaVersion: 2}, MediaType: ocispec.MediaTypeImageManifest, Config: cd,
+			Layers: []ocispec.Descriptor{}, Annotations: map[string]string{"jp": fmt.Sprint(ri)}}
+		mb, _ := json.Marshal(m)
+		md := descOf(ocispec.MediaTypeImageManifest, mb)
+		o.Push(ctx, cd, bytes.NewReader(cfg))
+		if err := o.Push(ctx, md, bytes.NewReader(mb)); err != nil {
+			panic(err)
+		}
+		o.Tag(ctx, md, "v1")
+		before, _ := os.ReadFile(filepath.Join(dir, "index.json"))
+		junk := [][]byte{[]byte("this is not json"), []byte("{\"schemaVersion\":2,"), []byte(""), []byte("[1,2,3]"), []byte("\x00\x01\x02")}[ri%5]
+		mt := []string{ocispec.MediaTypeImageManifest, ocispec.MediaTypeImageIndex, "application/vnd.docker.distribution.manifest.v2+json"}[ri%3]
+		jd := descOf(mt, junk)
+		perr := o.Push(ctx, jd, bytes.NewReader(junk))
+		after, _ := os.ReadFile(filepath.Join(dir, "index.json"))
+		if perr != nil && !bytes.Equal(before, after) {
+			os.RemoveAll(dir)
+			return fmt.Sprintf("case-%d:refused-push-rewrote-index.json", ri)
+		}
+		// (the refused bytes stay behind as an unreferenced blob; malformed manifests are outside
+		// the quantifier of C06, so that is not judged - the index and the directory are)
+		for _, how := range []string{"dir", "fs"} {
+			var rerr error
+			var d ocispec.Descriptor
+			if how == "dir" {
+				var s2 *oci.Store
+				if s2, rerr = oci.New(dir); rerr == nil {
+					d, rerr = s2.Resolve(ctx, "v1")
+				}
+			} else {
+				var s2 *oci.ReadOnlyStore
+				if s2, rerr = oci.NewFromFS(ctx, os.DirFS(dir)); rerr == nil {
+					d, rerr = s2.Resolve(ctx, "v1")
+				}
+			}
+			if rerr != nil || d.Digest != md.Digest {
+				os.RemoveAll(dir)
+				return fmt.Sprintf("case-%d:directory-does-not-open-as-before(%s,push-refused=%v)", ri, how, perr != nil)
+			}
+		}
+		os.RemoveAll(dir)
+	}
+	return "intact"
+}
+
+// tagReopen: goroutines tag one manifest under many names at once; when all calls have
+// returned, a store opened on the directory resolves every one of the names.
+func tagReopen(ctx context.Context, tmp string, rounds int) string {
+	for ri := 0; ri < rounds; ri++ {
+		dir := filepath.Join(tmp, fmt.Sprintf("tr%d", ri))
+		o, err := oci.New(dir)
+		if err != nil {
+			panic(err)
+		}
+		cfg := []byte("{}")
+		cd := descOf(ocispec.MediaTypeImageConfig, cfg)
+		m := ocispec.Manifest{Versioned: specs.Versioned{SchemaVersion: 2}, MediaType: ocispec.MediaTypeImageManifest, Config: cd,
+			Layers: []ocispec.Descriptor{}, Annotations: map[string]string{"tr": fmt.Sprint(ri)}}
+		mb, _ := json.Marshal(m)
+		md := descOf(ocispec.MediaTypeImageManifest, mb)
+		o.Push(ctx, cd, bytes.NewReader(cfg))
+		if err := o.Push(ctx, md, bytes.NewReader(mb)); err != nil {
+			panic(err)
+		}
+		start := make(chan struct{})
+		var wg sync.WaitGroup
+		for g := 0; g < 4; g++ {
+			wg.Add(1)
+			go func(g int) {
+				defer wg.Done()
+				<-start
+				for k := 0; k < 4; k++ {
+					if err := o.Tag(ctx, md, fmt.Sprintf("tag%d-%d", g, k)); err != nil {
+						panic(err)
+					}
+				}
+			}(g)
+		}
+		close(start)
+		wg.Wait()
+		s2, err := oci.New(dir)
+		if err != nil {
+			os.RemoveAll(dir)
+			return fmt.Sprintf("round-%d:reopen-failed", ri)
+		}
+		for g := 0; g < 4; g++ {
+			for k := 0; k < 4; k++ {
+				if _, err := s2.Resolve(ctx, fmt.Sprintf("tag%d-%d", g, k)); err != nil {
+					os.RemoveAll(dir)
+					return fmt.Sprintf("round-%d:acknowledged-name-tag%d-%d-unknown-after-reopen", ri, g, k)
+				}
+			}
+		}
+		os.RemoveAll(dir)
+	}
+	return "complete"
+}
+
 func runC08r(seed int64, tier string, sc *Script) map[string]any {
 	ctx := context.Background()
 	tmp, err := os.MkdirTemp("", "verif-c08r-")
@@ -169,6 +278,12 @@ func runC08r(seed int64, tier string, sc *Script) map[string]any {
 	sc.Case("concurrent-pushes-then-reopen oci")
 	sc.NonTrivial()
 	sc.Op(pushReopen(ctx, tmp, rounds, 24), "s pushreopen rounds=%d pushers=24", rounds)
-	sc.Extra["evaluations"] = races + rounds
+	sc.Case("refused-manifest-push oci")
+	sc.NonTrivial()
+	sc.Op(junkPush(ctx, tmp, 15), "s junkpush cases=15")
+	sc.Case("concurrent-tags-then-reopen oci")
+	sc.NonTrivial()
+	sc.Op(tagReopen(ctx, tmp, rounds*3), "s tagreopen rounds=%d", rounds*3)
+	sc.Extra["evaluations"] = races + rounds*4 + 15
 	return nil
 }
